@@ -226,7 +226,7 @@ def shard(n, seed, known):
 
 def run(ctx):
     jobs = [(k, core.subseed(ctx.seed, "t", i), ctx.known_sigs)
-            for i, k in enumerate(core.split(ctx.n(2400, 50000), 16))]
+            for i, k in enumerate(core.split(ctx.n(8000, 120000), 16))]
     stats = core.Stats()
     for s in core.pmap(shard, jobs):
         stats.merge(s)
